@@ -348,6 +348,11 @@ class C11(Prop):
                        ("$MYKEY 1+1\nMYKEY 1+1\nMYKEY hello world", ["MYKEY 2", "MYKEY 1+1", "MYKEY hello world"]), ("IF TRUE\n    $FOO 2*3\n    FOO 2*3\n    $FOO 1\n    FOO a b", ["FOO 6", "FOO 2*3", "FOO 1", "FOO a b"]),
                        ("$STRING 1+1\nSTRING 1+1\n$STRING 2+2", ["STRING 2", "STRING 1+1", "STRING 4"]), ("REPEAT 2\n    $BAR 1+1\n    BAR 1+1", ["BAR 2", "BAR 1+1"] * 2)]:
             out.append(comp(t, {"include_comments": True}, expect_out=exp))
+        # a group holding only an empty triple-quote section is no argument at all: same as the bare command
+        for cmd in ("DELAY", "$DELAY", "DEFAULT_DELAY", "VAR", "EXIST", "UP", "TAB", "MENU", "STRING", "ENTER", "ALT", "FOO", "REM"):
+            for inner in ("", "\n"):
+                out.append(comp(cmd + "\n    \"\"\"" + inner + "\n    \"\"\"\nSTRING after", {"include_comments": True}, group="eq_" + cmd, spelling=0))
+            out.append(comp(cmd + "\nSTRING after", {"include_comments": True}, group="eq_" + cmd, spelling=2))
         out.append(comp("DEFAULT_DELAY\n  5\n  $DEFAULT_DELAY+1", {}, group="dd", spelling=0))
         out.append(comp("DEFAULT_DELAY 5\nDEFAULT_DELAY $DEFAULT_DELAY+1", {}, group="dd", spelling=2))
         return out
@@ -672,6 +677,14 @@ class C13(Prop):
                                  expect_out=(exp_leaf * 2 if kind != "STARTENV" else []) + ["STRING done"]))
             out.append(fcase({("m.txt",): "START a\nSTART b\nSTRING done", ("a.txt",): "START e\nIF TRUE\n    STRING a", ("b.txt",): "START e\nIF TRUE\n    STRING b", ("e.txt",): leaf},
                              ("m.txt",), expect_status="OK", expect_out=exp_leaf + ["STRING a"] + exp_leaf + ["STRING b", "STRING done"]))
+        # a cycle that exactly fills the stack limit is still reported as a cycle
+        for n in (1, 2, 3, 5):
+            for kind in ("START", "STARTCODE", "STARTENV"):
+                files = {("r%d.txt" % k,): "STRING r%d\n%s r%d" % (k, kind, (k + 1) % n) for k in range(n)}
+                for entry in range(n):
+                    out.append(fcase(files, ("r%d.txt" % entry,), {"stack_limit": n}, expect_status="CIRC"))
+            files = {("m.txt",): "FUNC go\n    START lib\nRUN go", ("lib.txt",): "STRING lib\nSTART m"}
+            out.append(fcase(files, ("m.txt",), {"stack_limit": 3}, expect_status="CIRC"))
         # repeats and diamonds are accepted
         out.append(fcase({("m.txt",): "START a\nSTART a\nSTART b", ("a.txt",): "START c\nSTRING a", ("b.txt",): "START c\nSTRING b", ("c.txt",): "STRING c"}, ("m.txt",),
                          expect_status="OK", expect_out=["STRING c", "STRING a", "STRING c", "STRING a", "STRING c", "STRING b"]))
@@ -843,6 +856,16 @@ class C14(Prop):
                         else:
                             files[("main.txt",)] = "%s c1" % imp
                         out.append(fcase(files, ("main.txt",), {"stack_limit": L}, expect=exp, timeout=60.0, construct="blank-leaf", depth=k))
+        for L in (5, 20):
+            for same in (True, False):
+                for k, exp in ((L - 1, "OK"), (L, "SO")):
+                    files = {}
+                    for d in range(0, k + 1):
+                        nm = "main" if same else "f%d" % d
+                        path = tuple(["sub"] * d + [nm + ".txt"])
+                        nxt = "sub." + ("main" if same else "f%d" % (d + 1))
+                        files[path] = ("STRING d%d\nSTART %s" % (d, nxt)) if d < k else "STRING bottom"
+                    out.append(fcase(files, (("main" if same else "f0") + ".txt",), {"stack_limit": L}, expect=exp, timeout=60.0, construct="same-name-chain" if same else "named-chain", depth=k))
         for e in ["(" + "+".join(["(1)"] * 120) + ")", "(" + "+".join(["((1))"] * 60) + ")*1", "(\"" + "(" * 150 + "\")", "1+(" + "*".join(["(2-1)"] * 101) + ")"]:
             out.append(comp("$STRING " + e, {}, expect="OK"))
             out.append(comp("VAR q " + e + "\nIF TRUE\n  $STRING q", {}, expect="OK"))
@@ -942,6 +965,22 @@ class C15(Prop):
     rule = "all 16 combinations of the four boolean options x programs mixing REM / Flipper-only / unknown / ordinary commands at any nesting, string and file entry points, project config.yaml contents; distinct = distinct (program, options)"
     explanation = "each run is compared with the model; option relations (comments interleave, flipper gate, warning suppression, entry-point equality, project merge) are checked between runs of the implementation"
 
+    def flipper_corpus(self):
+        # the Flipper gate applies to the command, with or without an argument, wherever it is executed
+        out = []
+        k = 0
+        for cmd in ["SYSRQ", "CTRL-ALT", "CTRL-SHIFT", "ALT-SHIFT", "ALT-GUI", "GUI-SHIFT", "ALTCHAR 65", "ALTSTRING a", "ALTCODE a", "SYSRQ h", "CTRL-ALT k", "$SYSRQ", "sysrq"]:
+            for wrap in ("%s", "STRING a\n%s", "IF TRUE\n    %s", "FUNC f\n    %s\nRUN f", "REPEAT 2\n    %s", "IF FALSE\n    %s\nSTRING unexecuted"):
+                text = wrap % cmd
+                base = dict(include_comments=False, flipper_commands=True, supress_command_not_exist=False)
+                grp = "fl%d" % k
+                k += 1
+                for role, o in (("base", {}), ("comments", {"include_comments": True}), ("noflip", {"flipper_commands": False}), ("suppress", {"supress_command_not_exist": True})):
+                    out.append(comp(text, dict(base, **o), group=grp, role=role))
+                out.append(fcase({("p", "main.txt"): text}, ("p", "main.txt"), dict(base), group=grp, role="file"))
+                out.append(comp(text, dict(base, flipper_commands=False, include_comments=True), group=grp, role="rand"))
+        return out
+
     def generate(self, rng, n, tier):
         cases = []
         for k in range(n // 6):
@@ -960,7 +999,7 @@ class C15(Prop):
 
     def corpus(self, tier):
         """ProjectEnvironment.calculate_options against the Coq model (Options.v), every shape of config.yaml"""
-        out = []
+        out = self.flipper_corpus()
         vals = {"stack_limit": [7, 200], "include_comments": [True, False], "flipper_commands": [True, False], "supress_command_not_exist": [True, False], "use_project_config": [True, False]}
         keys = list(vals)
         r = random.Random(15)
@@ -1189,6 +1228,9 @@ class C16(Prop):
     def corpus(self, tier):
         out = []
         out.append(fcase({("m.txt",): "START lib\nFROB main", ("lib.txt",): "STRING l1\nFROB lib"}, ("m.txt",), expect_located=[("lib.txt", 2), ("m.txt", 2)]))
+        # line numbers inside imported files count their leading blank lines
+        for kind in ("START", "STARTCODE", "STARTENV"):
+            out.append(fcase({("m.txt",): "%s lib\nFROB main" % kind, ("lib.txt",): "\n\n   \nSTRING l4\nFROB lib\nIF\n\n"}, ("m.txt",), expect_located=[("lib.txt", 5), ("lib.txt", 6), ("m.txt", 2)]))
         out.append(fcase({("m.txt",): "STARTENV lib\nRUN f\nFROB main", ("lib.txt",): "FUNC f\n    STRING in\n    FROB lib"}, ("m.txt",), expect_located=[("lib.txt", 3), ("m.txt", 3)]))
         for t, exp in [("FOO  bar  ", "FOO bar"), ("foo", "FOO"), ("ſtring x", "STRING x"), ("$FOO 1+1", "FOO 2"), ("$foo \"a\"", "FOO a"), ("ELSE x", None)]:
             c = comp(t)
@@ -1241,7 +1283,8 @@ class C17(Prop):
             x = r.random()
             if x < 0.4:
                 cmd = r.choice(["STRING", "ALT", "REM", "PRINT", "ALTSTRING", "FOO", "GUI", "STRINGLN"])
-                t = r.choice(["$%s \"a\"+1" % cmd, "%s 1+1" % cmd, "$%s 1/0" % cmd, "%s x" % cmd, "$%s \"e\"" % cmd])
+                t = r.choice(["$%s \"a\"+1" % cmd, "%s 1+1" % cmd, "$%s 1/0" % cmd, "%s x" % cmd, "$%s \"e\"" % cmd,
+                              "DEFAULT_DELAY\n    1\n    2", "DEFAULTDELAY 3\n    4\n%s y" % cmd])
                 cases.append(comp(t, {"include_comments": r.random() < 0.5}))
             else:
                 pg = gen.ProgGen(r, valid=r.choice([1.0, 0.8]))
@@ -1574,6 +1617,28 @@ class C19(Prop):
                         o = ds.Compiler().compile(main).output
                         if o != ["STRING Hello, World!"] or ds.CompileOptions(**yaml.safe_load(cfg)).to_dict() != ds.CompileOptions().to_dict():
                             viol.append((case, "new_wrong_content", "the new project does not compile to the hello-world line under default options"))
+        finally:
+            shutil.rmtree(base, ignore_errors=True)
+        # a failing compile creates nothing at all, also when the output path lies in folders that do not exist yet
+        try:
+            shutil.rmtree(base, ignore_errors=True)
+            home = os.path.join(base, "home")
+            proj = os.path.join(base, "proj")
+            os.makedirs(home)
+            os.makedirs(os.path.join(proj, "lib"))
+            open(os.path.join(proj, "main.txt"), "w").write("STRING a\nPRINT p\nSTART lib.helper\nSTRING never")
+            open(os.path.join(proj, "lib", "helper.txt"), "w").write("VAR a 1/0")
+            before = snapshot(base)
+            res = self.run_cli({"cmd": "compile", "cwd": proj, "file": "main.txt", "output": "build/out/payload.txt", "comments": False, "stack_limit": 20}, home)
+            ev += 1
+            after = snapshot(base)
+            case = {"kind": "cli-missing-folder", "output": "build/out/payload.txt"}
+            if res.get("raised"):
+                viol.append((case, "cli_raises:" + res["raised"].split(":")[0], "the compile command raised %s instead of reporting the compile error" % res["raised"]))
+            else:
+                new = sorted(p for p in after if p not in before and not p.startswith("home/"))
+                if new:
+                    viol.append((case, "other_file_touched", "a failed compile created %r" % (new,)))
         finally:
             shutil.rmtree(base, ignore_errors=True)
         # a function defined in a library folder: a failure inside it is reported at the library file and line, and
